@@ -5,6 +5,7 @@ Import ListNotations.
 From GA.Base Require Import Bytes Case Align CorrBase.
 From GA.Gen Require Import Alpha.
 From GA.Model Require Fasta.
+From GA.Model Require ClustalParse.
 From GA.Model Require Import Container Translate.
 
 Definition brows := list (bs * bs).
@@ -48,6 +49,24 @@ Definition fasta_model (aligned : bool) (policy requested : Z) (inp : list byte)
            end
   end.
 
+(* Clustal: the modelled lexer + parser, then the same container insertion and alphabet choice *)
+Definition clustal_model (policy requested : Z) (inp : list byte) : option (rows * Z * Z) :=
+  match ClustalParse.parse inp with
+  | ClustalParse.RErr => None
+  | ClustalParse.ROk parsed =>
+      let pol := if Z.eqb policy IGNORE_NAME || Z.eqb policy IGNORE_SEQUENCE then policy else IGNORE_NONE in
+      let st0 := mkst true pol UNKNOWN (-1) 0 [] [] in
+      let '(st, ok) := add_all true st0 parsed in
+      if negb ok then None
+      else match abs st with
+           | [] => None
+           | rs => match set_alphabet requested rs with
+                   | None => None
+                   | Some a => Some (rs, c_len st, a)
+                   end
+           end
+  end.
+
 Definition model_ok (c : case) : bool :=
   let inp := unbs (k_input c) in
   if negb (forallb is_ascii inp) then true else
@@ -59,6 +78,12 @@ Definition model_ok (c : case) : bool :=
     | Some (rs, ln, a) =>
         is_class c "Ok" && rows_eqb (unrows (k_rows c)) rs && Z.eqb (k_outalpha c) a &&
         (negb aligned || Z.eqb (k_len c) ln)
+    end
+  else if is_fmt c "clustal" then
+    match clustal_model (k_policy c) (k_alpha c) inp with
+    | None => is_class c "Err"
+    | Some (rs, ln, a) =>
+        is_class c "Ok" && rows_eqb (unrows (k_rows c)) rs && Z.eqb (k_outalpha c) a && Z.eqb (k_len c) ln
     end
   else true.
 
